@@ -15,7 +15,7 @@ NUM_RICH = ['0', '1', '42', '1.5', '.5', '1.', '1e3', '1E+5', '1e-5', '0x1F',
             '0X0', '017', '0.0', '9']
 STR_BASIC = ["'s'", '"t"']
 STR_RICH = ["''", '"a"', "'a\"b'", '"\\n\\t\\\\\\"\\/\\x41é"', "'\\0'",
-            "'a\\\nb'", "'a\\\r\nb'", '"a\\ b"', "'\\u0041'"]
+            "'a\\\nb'", "'a\\\r\nb'", '"a\\\u2028b"', "'\\u0041'"]
 REGEX_BASIC = ['/re/', '/a/g']
 REGEX_RICH = ['/re/', '/a\\/b/g', '/[/]/', '/=/', '/ /', '/\\s+/gim', '/a/i']
 
@@ -30,8 +30,8 @@ FIXED = {'GET': 'get', 'SET': 'set'}
 # layout kinds (DESIGN 3.1): without / with a line terminator
 GAP_PLAIN = {'sp': ' ', 'none': '', 'tab': '\t', 'nbsp': ' ',
              'cmt': ' /*c*/ ', '2sp': '  '}
-GAP_BREAK = {'lf': '\n', 'cr': '\r', 'crlf': '\r\n', 'ls': ' ',
-             'ps': ' ', 'cmtlf': ' /*\n*/ ', 'line': ' //c\n',
+GAP_BREAK = {'lf': '\n', 'cr': '\r', 'crlf': '\r\n', 'ls': '\u2028',
+             'ps': '\u2029', 'cmtlf': ' /*\n*/ ', 'line': ' //c\n',
              'lfcmt': '\n/*c*/ ', 'cmt_lf': ' /*c*/\n', 'lflf': '\n\n'}
 
 
